@@ -24,11 +24,13 @@ import (
 	"sort"
 	"strconv"
 	"strings"
+	"sync"
 	"testing"
 	"time"
 
 	sdkmath "cosmossdk.io/math"
 	abci "github.com/cometbft/cometbft/abci/types"
+	sdk "github.com/cosmos/cosmos-sdk/types"
 	"github.com/ethereum/go-ethereum/common"
 	ethtypes "github.com/ethereum/go-ethereum/core/types"
 	"github.com/stretchr/testify/require"
@@ -202,13 +204,24 @@ func rawsDigest(raws [][]byte) string {
 // transactions as long as its state is the same; it writes, per block, the digest of the raw transactions and the
 // projection of the block's consensus output.  Everything a process keeps in package-level variables (caches,
 // sync.Once, singletons) is shared by the replicas of THIS process and absent from the child.
-func freshProcess(t *testing.T, dir string, seed uint64, n int, straddleEnd int64) ([]blockRec, string) {
-	out := filepath.Join(dir, "fresh_process.json")
+//
+// cfgVariant > 0: the child is, in addition, a node whose whole node-local configuration differs from replica 0's
+// (childNodeCfg, hx/twin_apptoml.go): telemetry enabled process-wide, go-ethereum metrics, the application started from
+// an app.toml in which every setting is moved, start flags (trace, inv-check-period, log level, trace store), its own
+// request traffic.  Telemetry is a package-level switch of cosmos-sdk/telemetry: replicas of one process cannot differ in it.
+func freshProcess(t *testing.T, dir string, seed uint64, n int, straddleEnd int64, cfgVariant int) ([]blockRec, string) {
+	name := "fresh_process"
+	procs := "GOMAXPROCS=2"
+	if cfgVariant > 0 {
+		name = fmt.Sprintf("node_config_process_%d", cfgVariant)
+		procs = "GOMAXPROCS=6"
+	}
+	out := filepath.Join(dir, name+".json")
 	_ = os.Remove(out)
-	childDir := filepath.Join(dir, "fresh_process_out")
-	cmd := exec.Command(os.Args[0], "-test.run", "^TestDriverTwin$", "-test.count", "1", "-test.timeout", "1500s")
+	childDir := filepath.Join(dir, name+"_out")
+	cmd := exec.Command(os.Args[0], "-test.run", "^TestDriverTwin$", "-test.count", "1", "-test.timeout", "2400s")
 	cmd.Env = append(os.Environ(), "VERIF_TWIN_CHILD="+out, "VERIF_OUT="+childDir, fmt.Sprintf("VERIF_SEED=%d", seed), fmt.Sprintf("VERIF_N=%d", n),
-		fmt.Sprintf("VERIF_TWIN_STRADDLE_END=%d", straddleEnd), "GOMAXPROCS=2")
+		fmt.Sprintf("VERIF_TWIN_STRADDLE_END=%d", straddleEnd), fmt.Sprintf("VERIF_TWIN_CHILD_CFG=%d", cfgVariant), procs)
 	log, err := cmd.CombinedOutput()
 	tail := string(log)
 	if len(tail) > 1500 {
@@ -233,14 +246,16 @@ func TestDriverTwin(t *testing.T) {
 	seed := EnvSeed()
 	n := EnvInt("VERIF_N", 40)
 	k := 3
-	if Thorough() {
+	if thoroughTier() {
 		k = 8
 	}
 	k = EnvInt("VERIF_TWIN_K", k)
 	childOut := os.Getenv("VERIF_TWIN_CHILD")
 	isChild := childOut != ""
+	childCfg := 0
 	if isChild {
 		k = 1
+		childCfg = EnvInt("VERIF_TWIN_CHILD_CFG", 0)
 	}
 	var recs []blockRec
 	var descs []blockDesc
@@ -255,8 +270,16 @@ func TestDriverTwin(t *testing.T) {
 			"and once more by a FRESH operating-system process (one replica, no traffic) whose per-block output must equal replica 0's; a replica on which FinalizeBlock panics while others execute the block is a hit; "+
 			"non-trivial = at least one transaction executed (code 0) and (a destroy / transfer() special or >= 3 transactions); distinct by (special, kinds, malformations, result classes)")
 	cases := NewCases(dir, "From Evm Require Import CorrBase Destroy Nondet CorrNondet.", "nd_mismatches")
-	w := newWorld(t, k, side)
+	w := newWorld(t, k, side, childCfg)
 	side.Extra["replicas"] = w.describeCfgs()
+	// which node-local options does the code under test read at all?  (the list the harness mirrors: hx/twin_apptoml.go)
+	optReads, err := TwinAppOptionReads(repoDir())
+	require.NoError(t, err)
+	sweepDiff := ""
+	if j, d := strsDiff(TwinKnownAppOptionReads, optReads); j >= 0 {
+		sweepDiff = d
+	}
+	side.Extra["app_option_reads"] = optReads
 	straddleAt := n / 2
 	enumOrders := map[string]bool{}
 
@@ -271,11 +294,16 @@ func TestDriverTwin(t *testing.T) {
 			if rep.idx%3 == 1 && (b%37 == 17 || rr.Chance(5) || (afterDeploy && rr.Bool())) {
 				// every restart with other store settings of app.toml (inter-block cache, IAVL cache size, fast node)
 				rep.restarts++
-				require.NoError(t, TwinRestart(rep.c, rep.cfg.MinGas, rep.cfg.Tracer, TwinNodeStoreOptions(rep.restarts)...))
-				side.Count(fmt.Sprintf("replica_restart_store_options_variant:%d", rep.restarts%3))
-				tr, err := TwinGetEvmTracer(rep.c.App)
-				require.NoError(t, err)
-				require.Equal(t, rep.cfg.Tracer, tr, "the restarted instance did not take evm.tracer from its app options")
+				if rep.cfg.AppToml > 0 {
+					// the whole start-up path, every restart with the next app.toml variant
+					w.restartNode(rep)
+				} else {
+					require.NoError(t, TwinRestart(rep.c, rep.cfg.MinGas, rep.cfg.Tracer, TwinNodeStoreOptions(rep.restarts)...))
+					side.Count(fmt.Sprintf("replica_restart_store_options_variant:%d", rep.restarts%3))
+					tr, err := TwinGetEvmTracer(rep.c.App)
+					require.NoError(t, err)
+					require.Equal(t, rep.cfg.Tracer, tr, "the restarted instance did not take evm.tracer from its app options")
+				}
 				side.Count("replica_restarted_from_db")
 			}
 		}
@@ -318,6 +346,20 @@ func TestDriverTwin(t *testing.T) {
 		case r.Chance(40):
 			special = "stake-transfer"
 		}
+		// their own streams: the draws above stay what they were
+		ra := r.Fork(4242)
+		switch {
+		case b == straddleAt:
+		case b%50 == 7:
+			special = "apply-error" // every history of >= 8 blocks has one (the draws above were made all the same)
+		case b%50 == 23:
+			special = "gas-exhaust"
+		case special != "none":
+		case ra.Chance(22):
+			special = "apply-error"
+		case ra.Chance(6):
+			special = "gas-exhaust"
+		}
 		// a deployment of an ERC-20 custom precompiled contract by message: after everything else in the block (mostly) or first
 		var deployTx *genTx
 		deployLast := true
@@ -351,6 +393,13 @@ func TestDriverTwin(t *testing.T) {
 			} else {
 				special = "none"
 			}
+		case "apply-error":
+			// one to three transactions whose state transition sits at the boundary of being refused by the core
+			for i, m := 0, 1+ra.Intn(3); i < m; i++ {
+				gen = append(gen, w.genApplyError(ra))
+			}
+		case "gas-exhaust":
+			gen = append(gen, w.genGasHogs(ra)...)
 		}
 		if fresh != nil {
 			// the block after a deployment begins with calls to the fresh contract
@@ -484,7 +533,14 @@ func TestDriverTwin(t *testing.T) {
 			if g.Kind == "cpc-fresh-call" || g.Kind == "cpc-new-erc20" || g.Kind == "create-calls-cpc" {
 				side.Count(g.Kind + ":" + resClass(tr))
 			}
-			if g.floor && g.isEth {
+			side.Count("outcome:" + outcomeClass(g, tr))
+			if g.apply != nil {
+				if c := w.applyCase(g, tr, i, gen); c != "" {
+					cases.Add(c)
+				}
+			}
+			// (a transaction that found no block gas left never reached the ante handler)
+			if g.floor && g.isEth && !(tr.Codespace == "sdk" && tr.Code == 11) {
 				admitted := !(tr.Codespace == "sdk" && tr.Code == 13)
 				cases.Add(fmt.Sprintf("(CFloor %s %s %s %s %s %s %s)", CqZ(base), CqZ(gminDec), CqBool(g.Dyn),
 					CqZ(zeroIf(g.Dyn, g.price)), CqZ(zeroIf(!g.Dyn, g.tip)), CqZ(zeroIf(!g.Dyn, g.price)), CqBool(admitted)))
@@ -563,34 +619,69 @@ func TestDriverTwin(t *testing.T) {
 	}
 	// ---- the same history in a fresh operating-system process
 	if EnvInt("VERIF_TWIN_FRESH_PROCESS", 1) != 0 {
-		child, problem := freshProcess(t, dir, seed, n, straddleUsed)
-		if problem != "" && len(recs) > 0 {
-			// this process executed the history, the fresh one could not
-			side.Hit("C01/twin/fresh_process_halts/history", "the history this process executed cannot be executed by a fresh process: "+problem, descs[0])
-			child = nil
-			recs = nil
+		// variant 0 = a plain fresh process; the others = nodes with another node-local configuration, process-wide settings included
+		variants := []int{0, 5}
+		if thoroughTier() {
+			variants = []int{0, 5, 4}
 		}
-		side.Count("fresh_process:blocks_compared")
-		side.Histogram["fresh_process:blocks_compared"] = 0
-		for i := range recs {
-			if i >= len(child) {
-				side.Hit("C01/twin/fresh_process/history_length", fmt.Sprintf("this process executed %d blocks, the fresh process %d", len(recs), len(child)), descs[i])
-				break
+		type childRes struct {
+			recs    []blockRec
+			problem string
+		}
+		results := make([]childRes, len(variants))
+		var wg sync.WaitGroup
+		for vi, v := range variants {
+			wg.Add(1)
+			go func(vi, v int) { // the children are separate processes; this process only waits
+				defer wg.Done()
+				results[vi].recs, results[vi].problem = freshProcess(t, dir, seed, n, straddleUsed, v)
+			}(vi, v)
+		}
+		wg.Wait()
+		for vi, v := range variants {
+			label, who := "fresh_process", "a FRESH PROCESS (one replica, no request traffic, never restarted)"
+			if v > 0 {
+				label = "node_config_process"
+				who = fmt.Sprintf("a process of its own that is a node with ANOTHER NODE-LOCAL CONFIGURATION (%s; telemetry enabled process-wide)", childNodeCfgSummary(v))
 			}
-			if class, tx, detail := firstDiff(recs[i].Proj, child[i].Proj); class != "" {
-				kind := "block"
-				if tx >= 0 && tx < len(descs[i].Txs) {
-					kind = descs[i].Txs[tx].Kind
+			child, problem := results[vi].recs, results[vi].problem
+			mine := recs
+			if problem != "" && len(recs) > 0 {
+				// this process executed the history, the other one could not
+				side.Hit("C01/twin/"+label+"_halts/history", "the history this process executed cannot be executed by "+who+": "+problem, descs[0])
+				child, mine = nil, nil
+			}
+			hk := fmt.Sprintf("%s:blocks_compared", label)
+			if v > 0 {
+				hk = fmt.Sprintf("%s:variant_%d:blocks_compared", label, v)
+			}
+			side.Count(hk)
+			side.Histogram[hk] = 0
+			for i := range mine {
+				if i >= len(child) {
+					side.Hit("C01/twin/"+label+"/history_length", fmt.Sprintf("this process executed %d blocks, %s %d", len(mine), who, len(child)), descs[i])
+					break
 				}
-				side.Hit(fmt.Sprintf("C01/twin/%s/%s", class, kind),
-					fmt.Sprintf("block %d (height %d): replica 0 of this process and a FRESH PROCESS (one replica, no request traffic, never restarted) differ in %s of transaction %d (%s): %s",
-						recs[i].Index, descs[i].Height, class, tx, kind, detail), descs[i])
-				break
+				if class, tx, detail := firstDiff(mine[i].Proj, child[i].Proj); class != "" {
+					kind := "block"
+					if tx >= 0 && tx < len(descs[i].Txs) {
+						kind = descs[i].Txs[tx].Kind
+					}
+					side.Hit(fmt.Sprintf("C01/twin/%s/%s", class, kind),
+						fmt.Sprintf("block %d (height %d): replica 0 of this process and %s differ in %s of transaction %d (%s/%s): %s",
+							mine[i].Index, descs[i].Height, who, class, tx, kind, malOf(descs[i], tx), detail), descs[i])
+					break
+				}
+				// same consensus output so far => same state => the deterministic generator must have produced the same block
+				require.Equalf(t, mine[i].Raws, child[i].Raws, "block %d: the other process generated other transactions from the same state: the generator is not deterministic", mine[i].Index)
+				side.Histogram[hk]++
 			}
-			// same consensus output so far => same state => the deterministic generator must have produced the same block
-			require.Equalf(t, recs[i].Raws, child[i].Raws, "block %d: the fresh process generated other transactions from the same state: the generator is not deterministic", recs[i].Index)
-			side.Histogram["fresh_process:blocks_compared"]++
 		}
+	}
+	if sweepDiff != "" && len(side.OracleHits) == 0 {
+		// no difference was observed, but the set of node-local options the code reads is not the one this harness varies:
+		// the run cannot vouch for the new one
+		t.Fatalf("node-local option sweep: the application options read by cmd/, app/, x/ are not the ones the harness mirrors (hx/twin_apptoml.go TwinKnownAppOptionReads, TwinRestartNode): %s", sweepDiff)
 	}
 	side.Extra["distinct_touched_enumerations"] = len(enumOrders)
 	if cases.Len() == 0 {
@@ -598,6 +689,101 @@ func TestDriverTwin(t *testing.T) {
 	}
 	cases.Write(t, 60)
 	side.Write(t, dir)
+}
+
+// hx.Thorough compares VERIF_TIER with "Thorough"; ./check passes "thorough"
+func thoroughTier() bool { return strings.EqualFold(os.Getenv("VERIF_TIER"), "thorough") }
+
+func repoDir() string {
+	if d := os.Getenv("VERIF_REPO"); d != "" {
+		return d
+	}
+	return "/repo"
+}
+
+func malOf(d blockDesc, tx int) string {
+	if tx < 0 || tx >= len(d.Txs) {
+		return "-"
+	}
+	return d.Txs[tx].Mal
+}
+
+func childNodeCfgSummary(v int) string {
+	c := childNodeCfg(v)
+	return fmt.Sprintf("app.toml variant %d through the start-up path, gomaxprocs 6, mempool=%v traffic=%s", v, c.CheckTx, c.Traffic)
+}
+
+var coreErrPhrases = []string{"insufficient funds for transfer", "insufficient funds for gas", "intrinsic gas too low", "nonce too low", "nonce too high", "gas limit reached",
+	"max fee per gas less than block base fee", "sender not an eoa", "out of gas", "no block gas left", "invalid sequence", "insufficient fee", "insufficient funds", "invalid chain", "recovered"}
+
+// outcomeClass: the class of a transaction's outcome, for the histogram only (it reads the log)
+func outcomeClass(g *genTx, tr *abci.ExecTxResult) string {
+	lane := "cosmos"
+	if g.isEth {
+		lane = "eth-call"
+		if g.create {
+			lane = "eth-create"
+		}
+	}
+	if tr.Code == 0 {
+		for _, ev := range tr.Events {
+			if ev.Type == evmtypes.EventTypeTxReceipt {
+				if e := EventAttrs(ev)[evmtypes.AttributeKeyReceiptVmError]; e != "" {
+					if i := strings.Index(e, ":"); i > 0 {
+						e = e[:i]
+					}
+					return lane + ":executed:vm-error:" + e
+				}
+			}
+		}
+		return lane + ":executed:success"
+	}
+	why := "other"
+	low := strings.ToLower(tr.Log)
+	for _, p := range coreErrPhrases {
+		if strings.Contains(low, p) {
+			why = p
+			break
+		}
+	}
+	stage := "refused"
+	if strings.Contains(low, "failed to apply") {
+		stage = "state-transition-error"
+	}
+	return fmt.Sprintf("%s:%s:%s/%d:%s", lane, stage, tr.Codespace, tr.Code, why)
+}
+
+// applyCase: the CApply case of a boundary transaction (genApplyError), when the sender's balance right before the
+// state transition is known exactly: balance at the beginning of the block - the fee the ante handler took (read from
+// the transaction's own first coin_spent event), nothing received from an earlier transaction of the block.
+func (w *world) applyCase(g *genTx, tr *abci.ExecTxResult, idx int, gen []*genTx) string {
+	a := g.apply
+	if tr.Codespace == "sdk" {
+		w.side.Count("apply:refused_by_ante:" + a.variant)
+		return ""
+	}
+	var spent *big.Int
+	me := sdk.AccAddress(common.HexToAddress(g.Sender).Bytes()).String()
+	for _, ev := range tr.Events {
+		if ev.Type == "coin_spent" {
+			at := EventAttrs(ev)
+			if at["spender"] == me {
+				z, ok := new(big.Int).SetString(strings.TrimSuffix(at["amount"], w.bond), 10)
+				if ok {
+					spent = z
+				}
+				break
+			}
+		}
+	}
+	if spent == nil || spent.Cmp(a.fee) != 0 {
+		w.side.Count("apply:fee_not_as_computed")
+		return ""
+	}
+	post := new(big.Int).Sub(a.bal0, spent)
+	refused := tr.Code != 0
+	w.side.Count(fmt.Sprintf("apply:%s:refused=%v", a.variant, refused))
+	return fmt.Sprintf("(CApply %s %s %s %s %s)", CqZ(post), CqZ(a.value), CqBool(a.create), CqZ(new(big.Int).SetUint64(uint64(tr.Code))), CqBool(tr.Codespace == "undefined" || tr.Code == 0))
 }
 
 func zeroIf(c bool, v *big.Int) *big.Int {
